@@ -37,3 +37,5 @@ package shared
 //@   trusted
 //@   modifies E|uint8
 //@   ensures 1 <= result && result <= 4
+//@   ensures r >= 128 ==> (forall k int :: 0 <= k && k < result ==> p[k] >= 128)
+//@   ensures 0 <= r && r < 128 ==> result == 1 && int32(p[0]) == r
